@@ -3,9 +3,20 @@ import GraafVerif.Model.Bfs
 /-!
 Driver handlers for property C04 (ops of `harness/src/ops/c04.rs`):
 
-  bfs_iter           <desc> <sources>  =>  panic | [v …]
-  bfs_dist_iter      <desc> <sources>  =>  panic | [[v w] …]
-  bfs_dist_distances <desc> <sources>  =>  panic | [d …]        (`usize::MAX` printed in full)
+  bfs_iter           <desc> <sources> [shape]  =>  panic | [v …]
+  bfs_dist_iter      <desc> <sources> [shape]  =>  panic | [[v w] …]
+  bfs_dist_distances <desc> <sources> [shape]  =>  panic | [d …]        (`usize::MAX` printed in full)
+  bfs_dist_distances_twice <desc> <sources> [shape]  =>  panic | [d …] [d …]
+  bfs_iter_repoll / bfs_dist_iter_repoll <desc> <sources> <k> <extra> [shape]
+                                       =>  panic | [first ≤k] [rest] [rest of a clone] [extra polls]
+
+`[shape]` names the kind of iterator the harness hands the sources over as (exact-size `slice`,
+`vec`; lazy `filter flat_map flatten from_fn take_while map_while skip_while scan`; `range_filter` =
+`(0..order).filter(|u| sources.contains(u))`).  `new` only does `for u in sources`, so the model
+depends on the SEQUENCE of sources alone: the same for every shape (for `range_filter` the sequence
+is the ascending duplicate-free in-range one).  After `None` the queue is empty, so every further
+`next` is `None`; a clone continues like the original; a second `distances()` runs over the
+exhausted iterator and returns the `usize::MAX`-filled vector.
 
 Correspondence: the model of `Model/Bfs.lean` on `GDesc.graph`.  Property oracle (only for a
 buildable description and distinct in-range sources, which is what C04 speaks about): the naive
@@ -39,23 +50,50 @@ def resV {α : Type} (f : α → V) : Res α → List V
   | .panic => [.a "panic"]
   | .ok a => [f a]
 
+def shapes : List String :=
+  ["slice", "vec", "filter", "flat_map", "flatten", "from_fn", "take_while", "map_while", "skip_while", "scan",
+   "range_filter"]
+
+/-- Level-synchronous hop distances on arrays (frontier lists): the search oracle for orders above
+130, where the list-based `hopDistB` (order³ list steps) is too slow.  Like `hopDistB` it is
+certified case by case against the proved model of `distances()` (`Ctx.oracleOk`). -/
+def hopDistFast (g : Graph) (S : List Nat) : List (Option Nat) :=
+  let init : Array (Option Nat) := S.foldl (fun d s => d.setIfInBounds s (some 0)) (Array.replicate g.n none)
+  let rec go (fuel k : Nat) (front : List Nat) (d : Array (Option Nat)) : Array (Option Nat) :=
+    match fuel with
+    | 0 => d
+    | fuel+1 =>
+      if front.isEmpty then d else
+      let r := front.foldl (fun (acc : Array (Option Nat) × List Nat) u =>
+        (g.out u).foldl (fun (a : Array (Option Nat) × List Nat) v =>
+          match a.1[v]? with
+          | some none => (a.1.setIfInBounds v (some (k+1)), v :: a.2)
+          | _ => a) acc) (d, [])
+      go fuel (k+1) r.2 r.1
+  (go (g.n + 1) 0 S init).toList
+
 structure Ctx where
   d : GDesc
   g : Graph
-  S : List Nat
+  S : List Nat                -- the sequence of sources `new` receives
   inProp : Bool
   hd : List (Option Nat)      -- naive hop distances (only meaningful when `inProp`)
   reach : List Bool           -- naive reachable set
   oracleOk : Bool             -- the naive oracle agrees with the PROVED model on this input
   tags : List String
 
-def mkCtx (desc srcs : V) : Option Ctx := do
+def mkCtx (desc srcs : V) (shape : List V) : Option Ctx := do
   let d ← GDesc.parse desc
-  let S ← V.listOf? V.nat? srcs
+  let S0 ← V.listOf? V.nat? srcs
+  let sh ← match shape with
+    | [] => some "slice"
+    | [.a s] => if shapes.contains s then some s else none
+    | _ => none
+  let S := if sh == "range_filter" then (List.range d.order).filter (fun u => S0.contains u) else S0
   let g := d.graph
   let ok := descOk d
   let inProp := ok && srcOk d.order S
-  let hd := if inProp then hopDistB g S else []
+  let hd := if !inProp then [] else if d.order ≤ 130 then hopDistB g S else hopDistFast g S
   -- `reachSetB` costs order * arcs * order list steps: second opinion on small and medium orders only
   let reach := if !inProp then [] else if d.order ≤ 40 then reachSetB g S else hd.map Option.isSome
   -- `distances` of the model is proved to be the exact hop-distance vector (Thm/C04
@@ -63,8 +101,10 @@ def mkCtx (desc srcs : V) : Option Ctx := do
   let oracleOk := !inProp ||
     resV V.ofNats (distances g S usizeMax) == [V.ofNats (hd.map (fun o => o.getD usizeMax))]
   let nReach := (reach.filter id).length
-  let tags := [d.repr, (if d.order ≤ 8 then "n1-8" else if d.order ≤ 40 then "n9-40" else "n>40"),
+  let tags := [d.repr,
+    (if d.order ≤ 8 then "n1-8" else if d.order ≤ 40 then "n9-40" else if d.order ≤ 130 then "n>40" else "n>130"),
     (if S.isEmpty then "src0" else if S.length == 1 then "src1" else "src>1"),
+    (if sh == "slice" || sh == "vec" then "it-exact" else if sh == "range_filter" then "it-range-filter" else "it-lazy"),
     (if !ok then "bad-desc" else if !inProp then "bad-sources"
      else if nReach == d.order then "reach-all" else if nReach ≤ S.length then "reach-only-sources" else "reach-part")]
   pure ⟨d, g, S, inProp, hd, reach, oracleOk, tags⟩
@@ -83,21 +123,28 @@ def checkOrder (c : Ctx) (vs : List Nat) : Option String :=
   else if !sortedB (vs.map (fun v => (c.dist v).getD 0)) then some "hop distances decrease along the output"
   else none
 
+def checkDistItems (c : Ctx) (ps : List (Nat × Nat)) : Option String :=
+  match checkOrder c (ps.map (·.1)) with
+  | some e => some e
+  | none =>
+    if ps.all (fun p => c.dist p.1 == some p.2) then none
+    else some "a yielded distance is not the hop distance"
+
 /-- Descriptions the harness cannot build (never generated; the shrinker may produce them) are
 outside every statement here: trivial `OK`, tagged `bad-desc`. -/
-def finish (c : Ctx) (obs model : List V) (propFail : Option String) : Verdict :=
+def finish (c : Ctx) (obs model : List V) (propFail : Option String) (extraTags : List String := []) : Verdict :=
   if !descOk c.d then
     { status := "OK", nontrivial := false, tags := c.tags }
   else if !c.oracleOk then
     -- machinery error, never a silent pass: the search oracle contradicts a proved computation
     bad "oracle hopDistB disagrees with the proved model of distances()"
   else
-    classify obs model (if c.inProp then propFail else none) (nt := c.nt) c.tags
+    classify obs model (if c.inProp then propFail else none) (nt := c.nt) (c.tags ++ extraTags)
 
 def hIter : Handler := fun _ args obs =>
   match args with
-  | [desc, srcs] => do
-    let c ← mkCtx desc srcs
+  | desc :: srcs :: shape => do
+    let c ← mkCtx desc srcs shape
     let model := resV V.ofNats (bfs c.g c.S)
     let pf : Option String :=
       match obs with
@@ -110,18 +157,13 @@ def hIter : Handler := fun _ args obs =>
 
 def hDistIter : Handler := fun _ args obs =>
   match args with
-  | [desc, srcs] => do
-    let c ← mkCtx desc srcs
+  | desc :: srcs :: shape => do
+    let c ← mkCtx desc srcs shape
     let model := resV V.ofPairs (bfsDist c.g c.S)
     let pf : Option String :=
       match obs with
       | [v] => match V.listOf? (V.pair? V.nat? V.nat?) v with
-        | some ps =>
-          match checkOrder c (ps.map (·.1)) with
-          | some e => some e
-          | none =>
-            if ps.all (fun p => c.dist p.1 == some p.2) then none
-            else some "a yielded distance is not the hop distance"
+        | some ps => checkDistItems c ps
         | none => some "the call panicked / returned no list"
       | _ => some "malformed output"
     pure (finish c obs model pf)
@@ -129,8 +171,8 @@ def hDistIter : Handler := fun _ args obs =>
 
 def hDistances : Handler := fun _ args obs =>
   match args with
-  | [desc, srcs] => do
-    let c ← mkCtx desc srcs
+  | desc :: srcs :: shape => do
+    let c ← mkCtx desc srcs shape
     let model := resV V.ofNats (distances c.g c.S usizeMax)
     let want : List V := [V.ofNats (c.hd.map (fun o => o.getD usizeMax))]
     let pf : Option String :=
@@ -138,7 +180,72 @@ def hDistances : Handler := fun _ args obs =>
     pure (finish c obs model pf)
   | _ => none
 
+/-- Two calls on the same object: the first is the property's `distances()`; the second runs over
+the exhausted iterator (correspondence only: the property speaks about a fresh traversal). -/
+def hDistancesTwice : Handler := fun _ args obs =>
+  match args with
+  | desc :: srcs :: shape => do
+    let c ← mkCtx desc srcs shape
+    let model := match distances c.g c.S usizeMax with
+      | .panic => [V.a "panic"]
+      | .ok d => [V.ofNats d, V.ofNats (List.replicate c.g.n usizeMax)]
+    let want : V := V.ofNats (c.hd.map (fun o => o.getD usizeMax))
+    let pf : Option String :=
+      match obs with
+      | [a, _] => if a == want then none else some s!"first distances() should be {want}"
+      | _ => some "the call panicked / returned no two vectors"
+    pure (finish c obs model pf)
+  | _ => none
+
+/-- Model of the re-polling protocol from the full item list of the run. -/
+def repollModel {α : Type} (f : α → V) (r : Res (List α)) (k extra : Nat) : List V :=
+  match r with
+  | .panic => [.a "panic"]
+  | .ok l =>
+    let rest := V.l ((l.drop k).map f)
+    [V.l ((l.take k).map f), rest, rest, V.l (List.replicate extra (.a "none"))]
+
+/-- Everything the original iterator yielded, in poll order (items polled after `None` included). -/
+def repollAll {α : Type} (p : V → Option α) (obs : List V) : Option (List α × Bool) :=
+  match obs with
+  | [a, b, _, .l late] => do
+    let xs ← V.listOf? p a
+    let ys ← V.listOf? p b
+    let zs ← (late.filter (fun v => !(v == V.a "none"))).mapM p
+    pure (xs ++ ys ++ zs, !zs.isEmpty)
+  | _ => none
+
+def hIterRepoll : Handler := fun _ args obs =>
+  match args with
+  | desc :: srcs :: k :: extra :: shape => do
+    let c ← mkCtx desc srcs shape
+    let k ← V.nat? k
+    let extra ← V.nat? extra
+    let model := repollModel V.ofNat (bfs c.g c.S) k extra
+    let pf : Option String :=
+      match repollAll V.nat? obs with
+      | some (vs, _) => checkOrder c vs
+      | none => some "the call panicked / malformed output"
+    pure (finish c obs model pf ["repoll"])
+  | _ => none
+
+def hDistRepoll : Handler := fun _ args obs =>
+  match args with
+  | desc :: srcs :: k :: extra :: shape => do
+    let c ← mkCtx desc srcs shape
+    let k ← V.nat? k
+    let extra ← V.nat? extra
+    let model := repollModel V.ofPair (bfsDist c.g c.S) k extra
+    let pf : Option String :=
+      match repollAll (V.pair? V.nat? V.nat?) obs with
+      | some (ps, _) => checkDistItems c ps
+      | none => some "the call panicked / malformed output"
+    pure (finish c obs model pf ["repoll"])
+  | _ => none
+
 def handlers : List (String × Handler) :=
-  [("bfs_iter", hIter), ("bfs_dist_iter", hDistIter), ("bfs_dist_distances", hDistances)]
+  [("bfs_iter", hIter), ("bfs_dist_iter", hDistIter), ("bfs_dist_distances", hDistances),
+   ("bfs_dist_distances_twice", hDistancesTwice), ("bfs_iter_repoll", hIterRepoll),
+   ("bfs_dist_iter_repoll", hDistRepoll)]
 
 end GraafVerif.Driver.H04
